@@ -1909,7 +1909,9 @@ var rStackWhole = &Rule{
 			return
 		}
 		n := 0
-		sx.EachInstr(sd, func(in ssa.Instruction) {
+		// (the printing may sit in an unexported helper that receives the stack trace)
+		sdreg := regionOf(sd)
+		sdreg.each(func(in ssa.Instruction) {
 			call, ok := in.(*ssa.Call)
 			if !ok {
 				return
@@ -1924,6 +1926,7 @@ var rStackWhole = &Rule{
 					continue
 				}
 				n++
+				v = stripIface(sdreg.resolve(v))
 				st, isCall := v.(*ssa.Call)
 				whole := false
 				if isCall && sx.Callee(st) != nil && sx.Callee(st).Name() == "StackTrace" && len(st.Call.Args) == 1 {
